@@ -19,8 +19,12 @@ Monitors
                      last codon); no pseudo flag on any feature of a gene without one
   tbl.locus-tags     one locus_tag per gene row, all distinct, the k-th exported gene (k = 1, 2, ... across all
                      collections of the call) carries <prefix>_<step*k>; children carry their gene's tag
-  tbl.reproducible   two exports of the same collections with the same random_seed (global random state perturbed in
-                     between) are byte-identical
+  tbl.reproducible   all exports of a case (2 flavours x 3 tables) run on the SAME in-memory collection objects; the first
+                     export is then repeated on them with the same random_seed (global random state perturbed in between)
+                     and must be byte-identical to the first
+  tbl.operand-unchanged  the caller's model is not altered by exporting it: to_dict() of every collection and a direct reading
+                     of the live objects (qualifier sets of genes / transcripts, exon and CDS blocks, frames) are equal before
+                     the first and after the last export (what makes a second export of the same objects reproducible)
 
 Oracle for the CDS marks (DESIGN C17-O): the property is stated on the *exported* model - a .tbl CDS is its interval list
 plus codon_start, i.e. ONE uninterrupted reading frame over the merged (adjacent blocks combined) CDS starting
@@ -38,7 +42,7 @@ Latitude
         K13 (recorded for C05: construct_frames_from_location does not carry the rest of the offset into the second block)
         decides which frame the writer rebuilds.  A small marked share of such genes is generated; their frame-dependent
         monitors (partial-5p / partial-3p / pseudo; a StopIteration refusal when the rebuilt frame leaves no complete codon) are
-        evaluated and *counted* (evidence: extra["k13-..."]) but, with REPORT_K13 = False, not raised.  With REPORT_K13 = True they are raised and classify() maps them to the K13 key
+        raised and classify() maps them to the K13 key (REPORT_K13 = True; with False they are only counted in extra["k13-..."])
         (needs a KNOWN_FINDINGS entry for C17).  Intervals, codon_start, structure and locus tags are judged as usual.
   (v)   CDS with fewer than one complete codon are not generated (no "first codon" exists; the refusal is C19's subject);
         genes are homogeneous (all transcripts coding, or none) and single-stranded; non-coding transcripts carry a
@@ -61,7 +65,8 @@ RULE = (
     "ATT, none}, last codon stop / none, in-frame stop yes / no, layout in {1 block, 2 blocks with intron, 2 adjacent blocks, 3 blocks "
     "with an adjacent pair and a frame-shifted annotation, UTR exons}) on a C/G background; random: 1-2 collections of 1-4 genes "
     "(coding / tRNA / rRNA / misc_RNA / ncRNA / lncRNA / snoRNA / tmRNA, 1-3 isoforms, 1-4 exons, adjacent blocks, start frames, "
-    "programmed frameshifts, engineered start / alternative start / stop / in-frame stop codons); every case exported in both "
+    "programmed frameshifts, engineered start / alternative start / stop / in-frame stop codons; product (single and multi-valued), "
+    "gene_synonym, db_xref and note qualifiers on genes and on coding and non-coding transcripts); every case exported in both "
     "flavours x translation tables DEFAULT / STANDARD / PROKARYOTE with sampled prefix / jump size / seed / lab name. Signature = "
     "per transcript (biotype class, strand, #exon blocks, #merged CDS blocks, adjacency, start frame, (len-frame)%3, first-codon "
     "class, 3' complete, in-frame stop, gene pseudo, #isoforms); non-trivial = coding, or multi-exon, or minus strand."
@@ -69,7 +74,7 @@ RULE = (
 SCOPE = {"quick": {"NR": 4000, "grid_stride": 1}, "thorough": {"NR": 40000, "grid_stride": 1}}
 FLOOR = {"quick": 2500, "thorough": 6000}
 REQUIRED_MONITORS = ["tbl.format", "tbl.header", "tbl.structure", "tbl.flavour", "tbl.feature-key", "tbl.intervals", "tbl.partial-5p",
-                     "tbl.partial-3p", "tbl.codon-start", "tbl.pseudo", "tbl.locus-tags", "tbl.reproducible"]
+                     "tbl.partial-3p", "tbl.codon-start", "tbl.pseudo", "tbl.locus-tags", "tbl.reproducible", "tbl.operand-unchanged"]
 _W = "inscripta.biocantor.io.ncbi.tbl_writer:"
 REACH = [_W + x for x in ("collection_to_tbl", "TblGene.__init__", "TblFeature._location_to_str", "TblFeature._qualifiers_to_str",
                           "GeneTblFeature.__init__", "MRNATblFeature.__init__", "CDSTblFeature.__init__", "NcRNATblFeature.__init__",
@@ -83,7 +88,7 @@ ASSUMPTIONS = [
     "tests/data/*.tbl files) and bcv/models/framemodel.py uninterrupted_codons on the merged CDS; start codons from Bio.Data.CodonTable 1 / 11",
     "collections carry sequence (chromosome parent); genomes are ACGT only (upper case, a share soft-masked in mixed case)",
 ]
-REPORT_K13 = False
+REPORT_K13 = True  # K13 is registered for C17 in KNOWN_FINDINGS.json
 FRAME_DEPENDENT = ("tbl.partial-5p", "tbl.partial-3p", "tbl.pseudo")
 FLAVOURS = ("EUKARYOTIC", "PROKARYOTIC")
 TABLES = ("DEFAULT", "STANDARD", "PROKARYOTE")
@@ -224,6 +229,32 @@ def _k13_transcript(rng, lo, hi, strand, ident):
             "is_primary_tx": None, "qualifiers": {}, "guid": None}
 
 
+_PRODUCTS = {"coding": ["kinase_1", "DNA polymerase (subunit beta)", "alpha", "123", "hypothetical protein", "ABC transporter; permease", "cell division protein FtsZ"],
+             "rRNA": ["16S_ribosomal_RNA", "23S ribosomal RNA", "5S rRNA", "large_subunit ribosomal RNA"],
+             "tRNA": ["tRNA-Ala", "tRNA-Gly", "transfer RNA alanine", "tRNA-Xxx"]}
+_SYNONYMS = ["yabC", "b0001", "thrA2", "ORF_19", "locusA"]
+_XREFS = ["GeneID:851234", "UniProtKB:P00561", "SGD:S000002142", "ASAP:ABE-0000008"]
+
+
+def _rich_qualifiers(rng, kind, base=None):
+    """Qualifier dictionary the way the GenBank / GFF3 parsers fill it: product (single or multi-valued), gene synonyms,
+    db_xref, notes - on top of the generic random keys."""
+    q = {k: list(v) for k, v in (base or {}).items()}
+    r = rng.random()
+    pool = _PRODUCTS.get(kind) or ["small regulatory RNA", "RNase P RNA", "SRP_RNA", "antisense RNA [cis]"]
+    if r < 0.5:
+        q["product"] = [rng.choice(pool)]
+    elif r < 0.7:
+        q["product"] = rng.sample(pool, rng.randint(2, 3))
+    if rng.random() < 0.3:
+        q[rng.choice(["gene_synonym", "synonym"])] = rng.sample(_SYNONYMS, rng.randint(1, 3))
+    if rng.random() < 0.3:
+        q["db_xref"] = rng.sample(_XREFS, rng.randint(1, 3))
+    if rng.random() < 0.2:
+        q["note"] = rng.sample(["frameshifted", "putative; partial", "similar to E. coli b0002", "manually curated (2020)"], rng.randint(1, 2))
+    return q
+
+
 def _rand_gene(rng, lo, hi, ident, allow_k13):
     kind = rng.choice(["coding"] * 6 + NONCODING)
     strand = rng.choice("+-")
@@ -232,6 +263,8 @@ def _rand_gene(rng, lo, hi, ident, allow_k13):
     for k in range(ntx):
         if allow_k13 and kind == "coding" and rng.random() < 0.5:
             txs.append(_k13_transcript(rng, lo, hi, strand, f"{ident}_{k}"))
+            if rng.random() < 0.5:
+                txs[-1]["qualifiers"] = _rich_qualifiers(rng, kind)
             continue
         for attempt in range(40):
             t = GG.rand_transcript_spec(rng, lo, hi, coding=(kind == "coding"), max_exons=4, strand=strand, ident=f"{ident}_{k}",
@@ -252,10 +285,12 @@ def _rand_gene(rng, lo, hi, ident, allow_k13):
                  "qualifiers": {}, "guid": None}
         if kind == "coding" and rng.random() < 0.3:
             t["product"] = None
+        if rng.random() < 0.75:
+            t["qualifiers"] = _rich_qualifiers(rng, kind, t.get("qualifiers"))
         txs.append(t)
     return {"transcripts": txs, "gene_id": "gene" + ident, "gene_symbol": rng.choice(["gsym" + ident, None]),
             "gene_type": "protein_coding" if kind == "coding" else kind, "locus_tag": rng.choice(["LT_" + ident, None]),
-            "qualifiers": GG.rand_qualifiers(rng) if rng.random() < 0.4 else {}, "guid": None}
+            "qualifiers": _rich_qualifiers(rng, "gene", GG.rand_qualifiers(rng)) if rng.random() < 0.5 else {}, "guid": None}
 
 
 def _rand_coll(rng, name, allow_k13):
@@ -312,7 +347,8 @@ def _grid_cases(stride):
         glen = exons[-1][1] + 3
         g = [("C", "G")[(i * 7 + idx) % 2] for i in range(glen)]
         t = {"exons": exons, "strand": strand, "cds": cds, "frames": fr, "transcript_id": "tx1", "transcript_symbol": None,
-             "transcript_type": "protein_coding", "protein_id": "p1", "product": "kinase 1", "is_primary_tx": None, "qualifiers": {}, "guid": None}
+             "transcript_type": "protein_coding", "protein_id": "p1", "product": "kinase 1", "is_primary_tx": None,
+             "qualifiers": {"product": ["kinase 1"]} if idx % 2 else {}, "guid": None}
         cod = FM.uninterrupted_codons([tuple(b) for b in _merge(cds)], strand, f0)
         _put(g, cod[0], first, strand)
         if stop:
@@ -469,6 +505,54 @@ def _export(colls, case, flavour, table, seed):
     return fh.getvalue()
 
 
+def _snapshot(colls):
+    """What the caller's in-memory model says before / after the exports: the dictionary form of every collection plus a
+    direct reading of the live objects (qualifier sets, exon / CDS blocks, frames) that does not go through to_dict()."""
+    import copy
+
+    def q(obj):
+        return {str(k): sorted(str(x) for x in v) for k, v in (obj.qualifiers or {}).items()}
+
+    def blocks(loc):
+        return [(b.start, b.end) for b in loc.blocks]
+
+    out = []
+    for c in colls:
+        genes = []
+        for g in c.genes:
+            txs = []
+            for tx in g.transcripts:
+                txs.append({"qualifiers": q(tx), "exons": blocks(tx.chunk_relative_location), "strand": tx.strand.name,
+                            "cds": blocks(tx.cds.chunk_relative_location) if tx.is_coding else None,
+                            "frames": [f.value for f in tx.cds.frames] if tx.is_coding else None})
+            genes.append({"qualifiers": q(g), "transcripts": txs})
+        out.append({"to_dict": copy.deepcopy(c.to_dict()), "live": genes})
+    return out
+
+
+def _first_diff(a, b, path=""):
+    """Path of the first difference between two nested snapshots (for the witness)."""
+    if type(a) is not type(b):
+        return path or "/", repr(a)[:120], repr(b)[:120]
+    if isinstance(a, dict):
+        for k in sorted(set(a) | set(b), key=str):
+            if k not in a or k not in b:
+                return f"{path}/{k}", repr(a.get(k))[:120], repr(b.get(k))[:120]
+            d = _first_diff(a[k], b[k], f"{path}/{k}")
+            if d:
+                return d
+        return None
+    if isinstance(a, (list, tuple)):
+        if len(a) != len(b):
+            return path + "/len", len(a), len(b)
+        for i, (x, y) in enumerate(zip(a, b)):
+            d = _first_diff(x, y, f"{path}/{i}")
+            if d:
+                return d
+        return None
+    return None if a == b else (path, repr(a)[:120], repr(b)[:120])
+
+
 def _first_class(tm):
     c = tm["first"]
     return "ATG" if c == "ATG" else ("std-alt" if c in FM.STARTS["STANDARD"] else ("prok-alt" if c in FM.STARTS["PROKARYOTE"] else "none"))
@@ -499,6 +583,9 @@ def run_case(case, ctx):
     colls = [GG.build_collection(c, GG.build_parent({"mode": "chrom", "genome": c["genome"], "seqname": c["sequence_name"]})) for c in colls_spec]
     seed = case["seed"]
     first_text = None
+    before, exc = ctx.call(_snapshot, colls)
+    if exc is not None:
+        ctx.check("tbl.operand-unchanged", False, key=("snapshot-raised", type(exc).__name__), exc=repr(exc)[:300])
     for flavour, table in case["combos"]:
         text, exc = ctx.call(_export, colls, case, flavour, table, seed)
         if exc is not None:
@@ -524,8 +611,20 @@ def run_case(case, ctx):
         if exc is None and not same:
             diff = next(((a, b) for a, b in zip(text.split("\n"), text2.split("\n")) if a != b), None)
         has_random = case["prefix"] is None or case["lab"] is None or any(gm["coding"] for per in gms for gm in per)
-        ctx.check("tbl.reproducible", same, key=("same-seed-differs", "seed==0" if seed == 0 else "seed!=0"), seed=seed, first_difference=diff,
-                  exc=repr(exc)[:200] if exc else None, random_content=has_random)
+        ctx.check("tbl.reproducible", same, key=("same-seed-differs", "seed==0" if seed == 0 else "seed!=0", "raised" if exc else "text"), seed=seed,
+                  first_difference=diff, exc=repr(exc)[:200] if exc else None, random_content=has_random, exports_before_repeat=len(case["combos"]))
+
+    # ---- the caller's model is an operand of the export, not its scratch space ---------------------------------------
+    if before is not None:
+        after, exc = ctx.call(_snapshot, colls)
+        if exc is not None:
+            ctx.check("tbl.operand-unchanged", False, key=("snapshot-raised-after-export", type(exc).__name__), exc=repr(exc)[:300])
+        else:
+            d = _first_diff(before, after)
+            what = None
+            if d:
+                what = "qualifiers" if "qualifiers" in d[0] else ("blocks" if any(x in d[0] for x in ("exon", "cds", "frames")) else "other")
+            ctx.check("tbl.operand-unchanged", d is None, key=("changed", what), first_difference=d)
 
 
 def _judge_text(text, colls_spec, gms, case, flavour, table, ctx):
